@@ -111,13 +111,13 @@ def c15_cases(tier, rng):
         for edges in all_digraphs(n):
             if n == 5 and rng.random() > 0.02:      # 2^20 graphs: sampled even in thorough
                 continue
-            for place in ('pure', 'flat', 'nested'):
+            for place in ('pure', 'flat', 'nested') + (('wrapped', 'wrapped2') if n <= 3 else ()):
                 yield {'kind': 'c15', 'n': n, 'edges': edges, 'place': place}
     k = 300 if tier == 'quick' else 5000
     for _ in range(k):
         n = rng.randint(5, 8)
         edges = random_digraph(rng, n, rng.choice([0.1, 0.2, 0.35]))
-        yield {'kind': 'c15', 'n': n, 'edges': edges, 'place': rng.choice(['pure', 'flat', 'nested'])}
+        yield {'kind': 'c15', 'n': n, 'edges': edges, 'place': rng.choice(['pure', 'flat', 'nested', 'wrapped', 'wrapped2'])}
     # members that are themselves nested schedulers (empty ones included: an empty Scheduler is falsy)
     for n in range(1, 4):
         for edges in all_digraphs(n):
@@ -161,6 +161,16 @@ def c15_run(case):
     elif case['place'] == 'flat':
         s, jobs = build(n, edges, Scheduler, kinds=kinds)
         top = s
+    elif case['place'] == 'wrapped':
+        # the graph sits in a scheduler that is the only job of a wrapper (any depth counts)
+        s, jobs = build(n, edges, Scheduler, kinds=kinds)
+        top = Scheduler(Scheduler(s))
+    elif case['place'] == 'wrapped2':
+        s, jobs = build(n, edges, Scheduler, kinds=kinds)
+        a = J('before')
+        w = Scheduler(Scheduler(s))
+        w.requires(a)
+        top = Scheduler(a, w)         # (a PureScheduler only answers for its own level: statement of C15)
     else:
         s, jobs = build(n, edges, Scheduler, kinds=kinds)
         a, b = J('before'), J('after')
